@@ -138,6 +138,18 @@ theorem C11_roundtrip_bounded : C11_roundtrip_bounded_stmt := by
   intro o t hw hd
   exact ⟨_, jsonDecode_toJson o t hw hd, pairOrder_pyEq o t hw⟩
 
+/-- no formatting option changes the decoded value, the pair layout included: two option records
+that agree on `skip_empty_arrays` both decode to values equal (as Python compares) to the same tree -/
+theorem C11_options_agree_all (o o' : Opts) (hs : o.skipEmpty = o'.skipEmpty) (t : Val)
+    (hw : wf t = true) (hd : depth t ≤ 111) :
+    ∃ v v', jsonDecode (toJson o t) = some v ∧ jsonDecode (toJson o' t) = some v' ∧
+      pyEq v (erase (dropEmptyIf o t)) = true ∧ pyEq v' (erase (dropEmptyIf o t)) = true := by
+  obtain ⟨v, h1, h2⟩ := C11_roundtrip_bounded o t hw hd
+  obtain ⟨v', h1', h2'⟩ := C11_roundtrip_bounded o' t hw hd
+  refine ⟨v, v', h1, h1', h2, ?_⟩
+  have : dropEmptyIf o t = dropEmptyIf o' t := by unfold dropEmptyIf; rw [hs]
+  rw [this]; exact h2'
+
 /-- exact equality (dict order included) in every layout when the records of the lists printed
 in the pair layout already list their keys in column order (first appearance) -/
 theorem C11_roundtrip_colorder_partial (o : Opts) (t : Val) (hw : wf t = true) (hd : depth t ≤ 111)
